@@ -27,10 +27,14 @@ Init == /\ rq = Empty
         /\ conn = [b \in 1..NHosts |-> [h |-> HostName(b), alive |-> TRUE, fresh |-> FALSE, sess |-> "s"]]
         /\ out = {} /\ bad = <<>> /\ drops = 0 /\ nextb = NHosts + 1
 
+\* requests that the proxy answers itself (reads of the virtual system tables); a configuration overrides it
+LocalSet == {}
+LocalOne == {2}
+
 Submit ==
     LET r == Cardinality(DOMAIN rq) + 1 IN
     /\ r <= NReqs
-    /\ O!DoSubmit(r, 1, r, r \in IdemSet, "EXECUTE", r \in CachedSet, r, "s")
+    /\ O!DoSubmit(r, 1, r, r \in IdemSet, IF r \in LocalSet THEN "LOCAL" ELSE "EXECUTE", r \in CachedSet, r, "s")
     /\ UNCHANGED <<drops, nextb>>
 
 Usable(h) == {b \in DOMAIN conn : conn[b].h = h /\ conn[b].alive}
@@ -62,7 +66,8 @@ ReplyKinds == {"ok", "rt", "wt", "unavail", "boot", "srverr", "overloaded", "tru
 
 ProxyReply(r) ==
     /\ rq[r].ph = "exec"
-    /\ \/ \E k \in ReplyKinds : ("reply_" \o k) \in rq[r].must /\ O!DoReply(r, rq[r].c, rq[r].s, k, rq[r].tok, rq[r].cur)
+    /\ \/ \E k \in ReplyKinds : ("reply_" \o k) \in rq[r].must
+                                  /\ O!DoReply(r, rq[r].c, rq[r].s, k, rq[r].tok, IF rq[r].op = "LOCAL" THEN "" ELSE rq[r].cur)
        \/ /\ "next" \in rq[r].must /\ Len(rq[r].tried) >= NHosts
           /\ O!DoReply(r, rq[r].c, rq[r].s, "nohosts", 0, "none")
     /\ UNCHANGED <<drops, nextb>>
@@ -99,6 +104,9 @@ NoBad == bad = <<>>
 
 \* C01: at most one reply
 AtMostOneReply == \A r \in DOMAIN rq : rq[r].nrep <= 1
+
+\* C09 / C02: a request the proxy answers itself never reaches a backend and is answered with its own rows
+LocalNeverForwarded == \A r \in DOMAIN rq : rq[r].op = "LOCAL" => rq[r].natt = 0 /\ rq[r].tried = <<>>
 
 \* C04: a request that is not positively idempotent is re-executed only after safe outcomes
 NonIdemNotReexecuted ==
